@@ -652,7 +652,7 @@ fn run(toks: &[&str]) -> String {
   let _ = std::thread::Builder::new().name("case".into()).spawn(move || run_case(owned, tx_out));
   let mut out = String::new();
   loop {
-    match rx_out.recv_timeout(Duration::from_secs(3)) {
+    match rx_out.recv_timeout(Duration::from_secs(30)) {
       Ok(s) if s == "\u{0}END" => break,
       Ok(s) => out.push_str(&s),
       Err(mpsc::RecvTimeoutError::Timeout) => {
